@@ -107,6 +107,12 @@ def case(spec):
         stratum_tight = idx % 5 == 4      # two-sided, tightly packed tracks, exact LUT lengths
         if stratum_tight:
             sides = 2
+            if spt == 16:
+                spt = 18
+        if spt == 16:
+            # an interleaved two-sided dump is always probed with 18 sectors per
+            # track, so a 16-spt disc has no two-sided sector-dump equivalent
+            sides = 1
         surfs = make_disc(rng, enc, spt, tracks, sides)
         if any(s.variant == 'opus' for s in surfs) and spt != 18:
             spt = 18
